@@ -798,10 +798,15 @@ LEVEL_TEXT = ("Partial. Model: printer (all scalar types incl. time tags, range 
               "with the code on every run; proved about the model: the calendar pair round-trips for every 32-bit number of seconds "
               "(C10_timetag_calendar, no hypothesis), the fraction survives its float when it has at most 24 significant bits "
               "(C10_timetag_fraction), the value is rebuilt from the printed fields (C10_timetag_value_partial); at the level "
-              "of the text the scanner's date branch reads the printed text of EVERY time tag of whole seconds (all three strftime "
-              "formats) back to that time tag and stops behind it (C10_timetag_token_whole_seconds); for a time tag with a fraction "
-              "and for the checker's skip_date the text-level reading is shown for examples by computation and tied, not proved in "
-              "general. Range conversion: "
+              "of the text, for every 32-bit number of seconds: the scanner's date branch and the checker's (fmt_date + skip_date) read "
+              "the printed text of every time tag of whole seconds (all three strftime formats) back and stop behind it "
+              "(C10_timetag_token_whole_seconds, C10_timetag_skip_whole_seconds; what follows must not be a clock time, ':' or '.'), "
+              "and with the lossless option of every time tag whose fraction fits a float, the value taken exactly from the "
+              "hexadecimal float (C10_timetag_token_fraction, C10_timetag_skip_fraction); such a text is a token (tokof) of the "
+              "whole-function recognisers (C10_timetag_tokof_clock for a clock time other than 00:00:00, C10_timetag_tokof_fraction), "
+              "so texts mixing time tags with the other proved tokens under any white space are counted and scanned back "
+              "(C10_linebreak_transparent, C10_timetag_in_list). Not proved: a date standing alone as a token of lang, VTm in the "
+              "printer-side list theorems (tied). Range conversion: "
               "C10_range_expand.")
 LEVEL_NOTE = ("Trusted: Coq kernel, extraction, OCaml driver (incl. its libc oracle for decimal float literals, dead in lossless "
               "mode), harness, generators. FloatFmt.v: fmt_f/fmt_a = glibc printf and sc_f/to_bits = glibc sscanf are tied by "
